@@ -2,6 +2,8 @@
 
 from __future__ import annotations
 
+import io
+
 from . import core, observe, rawh5, treeops, world
 
 C01_FIELDS = (
@@ -18,10 +20,16 @@ C01_FIELDS = (
 
 
 def _run(ex, history, want):
-    ex.run(history["ops"])
+    """`want` is either a tuple of observer names for the standard protocol, or a protocol
+    object with optional `before_last(ex, history)` and mandatory `observe(ex, history)`."""
+    ops = history["ops"]
+    proto = None if isinstance(want, (tuple, list)) else want
+    ex.run(ops[:-1])
+    ex.before = proto.before_last(ex, history) if (proto is not None and ops and hasattr(proto, "before_last")) else None
+    ex.run(ops[-1:])
     key = canon_key(ex)  # before the final observation, which itself loads lazy fields
     mkey = model_key(ex)
-    obs = ex.finish(want)
+    obs = proto.observe(ex, history) if proto is not None else ex.finish(want)
     obs["key"] = key
     obs["model_key"] = mkey
     return obs
@@ -261,3 +269,174 @@ def outcome(ex, obs) -> str:
     else:
         seen = sorted(str(u) for i, u in ex.uid.items() if i in ex.model.nodes)
     return core.digest([ex.results, seen, len(obs["bytes"]) // 512])
+
+
+# ---------------------------------------------------------------------------
+# C05 - deletion
+class C05Protocol:
+    """Observation order: image of the file right after the last operation (before any
+    harness-induced GC), live snapshot without listings, [drop policy: GC, then lookups and
+    listings], close, fresh read-only open."""
+
+    @staticmethod
+    def before_last(ex, history):
+        op = history["ops"][-1]
+        if op[0] == "rm_ws":
+            return {"digests": rawh5.digests(ex.image(1)), "live": observe.snapshot(ex.ws, listings=False)}
+        return None
+
+    @staticmethod
+    def observe(ex, history):
+        obs = {"results": list(ex.results)}
+        obs["image"] = ex.image(1)
+        obs["image2"] = ex.image(2)
+        obs["live"] = observe.snapshot(ex.ws, listings=False)
+        obs["live2"] = observe.snapshot(ex.ws2, listings=False) if ex.ws2 is not None else None
+        obs["lookups"] = None
+        if not ex.hold:
+            ex.held = []
+            world.full_collect()
+            look = {}
+            for how, idxs in removed_sets(ex):
+                for i in idxs:
+                    ws = ex.ws if ex.model.ws_of[i] == 1 else ex.ws2
+                    got = ws.get_entity(ex.uid[i])
+                    look[i] = [None if g is None else str(g.uid) for g in got]
+            names = {}
+            for wsn, ws in ((1, ex.ws), (2, ex.ws2)):
+                if ws is None:
+                    continue
+                for nm in sorted(set(ws.list_entities_name.values())):
+                    names[(wsn, nm)] = [None if g is None else str(g.uid) for g in ws.get_entity(nm)]
+            obs["lookups"] = {"by_uid": look, "by_name": names}
+            obs["listed"] = {
+                1: sorted(str(e.uid) for e in ex.ws.groups + ex.ws.objects + ex.ws.data),
+                2: sorted(str(e.uid) for e in ex.ws2.groups + ex.ws2.objects + ex.ws2.data) if ex.ws2 is not None else [],
+            }
+        ex._close_all()  # pylint: disable=protected-access
+        _, b1, b2 = ex.closed_bytes[-1]
+        obs["bytes"], obs["bytes2"] = b1, b2
+        ro = ex.Workspace(io.BytesIO(b1), mode="r")
+        obs["reopen"] = observe.snapshot(ro)
+        ro.close()
+        obs["reopen2"] = None
+        if b2 is not None:
+            ro2 = ex.Workspace(io.BytesIO(b2), mode="r")
+            obs["reopen2"] = observe.snapshot(ro2)
+            ro2.close()
+        return obs
+
+
+def removed_sets(ex):
+    return [(ev[1], ev[2]) for ev in ex.events if ev[0] == "removed"]
+
+
+def _file_mentions(tree, uid_norm, removed_uids):
+    """Where a uid is still mentioned in a raw file tree.  'node-left': the node itself (flat
+    container) or an entry in the child list of a node that was removed with it;
+    'in-survivor-child-list' / 'pg-members': a reference held by a surviving entity."""
+    where = []
+    for (kind, u), ent in tree["nodes"].items():
+        if u == uid_norm:
+            where.append("node-left")
+        for sub, kids in ent["children"].items():
+            if uid_norm in kids:
+                where.append("node-left" if u in removed_uids else "in-survivor-child-list")
+        for pg in ent["pgs"].values():
+            props = pg.get("Properties") or []
+            if isinstance(props, str):
+                props = [props]
+            if uid_norm in [rawh5.norm_uid(p) for p in props]:
+                where.append("node-left" if u in removed_uids else "pg-members")
+    return sorted(set(where))
+
+
+def clauses_c05(ex, obs) -> list:
+    out = []
+    m = ex.model
+    kind_of = {}
+    for ev in ex.events:
+        if ev[0] == "removed":
+            pass
+    if not removed_sets(ex) and ex.before is None and not ex.unexpected:
+        return []
+    trees = {1: rawh5.tree(obs["image"], light=True), 2: rawh5.tree(obs["image2"], light=True) if obs["image2"] is not None else None}
+    closed = {1: rawh5.tree(obs["bytes"], light=True), 2: rawh5.tree(obs["bytes2"], light=True) if obs["bytes2"] is not None else None}
+    removed_uids = {wsn: {str(ex.uid[i]) for _, idxs in removed_sets(ex) for i in idxs if m.ws_of[i] == wsn} for wsn in (1, 2)}
+    live = {1: obs["live"], 2: obs["live2"]}
+    reo = {1: obs["reopen"], 2: obs["reopen2"]}
+    for how, idxs in removed_sets(ex):
+        for pos, i in enumerate(idxs):
+            wsn = m.ws_of[i]
+            uid = str(ex.uid[i])
+            role = "entity" if pos == 0 else "descendant"
+            # (1) the file: right after the history and after close
+            for label, tr in (("after-op", trees[wsn]), ("after-close", closed[wsn])):
+                if tr is None:
+                    continue
+                wh = _file_mentions(tr, uid, removed_uids[wsn])
+                for place in wh:
+                    # one signature per kind of leftover; entity / descendant merged for the
+                    # node itself (one defect: the removal did not reach the file)
+                    wit = f"via-{how}:{place}" if place == "node-left" else f"via-{how}:{role}:{place}"
+                    out.append(("deleted-from-file", wit, {"uid": uid, "when": label, "where": wh, "results": ex.results[-5:]}))
+                if wh:
+                    break
+            # (2) live tree and re-opened tree: child lists and property groups
+            for label, snap in (("live", live[wsn]), ("reopen", reo[wsn])):
+                if snap is None:
+                    continue
+                hits = []
+                for u, rec in snap["tree"].items():
+                    if u == uid:
+                        hits.append("in-tree")
+                    if uid in rec.get("children", []):
+                        hits.append("child-list")
+                    for pg in rec.get("pgs", []) or []:
+                        if uid in pg["properties"]:
+                            hits.append("pg-members")
+                if hits:
+                    out.append(("no-reference-left", f"via-{how}:{role}:{label}:{','.join(sorted(set(hits)))}", {"uid": uid, "results": ex.results[-5:]}))
+            # (3) lookups once the caller dropped its references (drop policy + GC)
+            if obs["lookups"] is not None:
+                got = obs["lookups"]["by_uid"].get(i)
+                if got is not None and any(g is not None for g in got):
+                    out.append(("lookup-yields-nothing", f"via-{how}:{role}:by-uid", {"uid": uid, "got": got}))
+                for (w, nm), found in obs["lookups"]["by_name"].items():
+                    if w == wsn and uid in [f for f in found if f]:
+                        out.append(("lookup-yields-nothing", f"via-{how}:{role}:by-name", {"uid": uid, "name": nm}))
+                if uid in obs["listed"][wsn]:
+                    out.append(("gone-from-listings", f"via-{how}:{role}", {"uid": uid}))
+    # (4) later operations on the survivors succeed
+    first_removal = min((ev[3] for ev in ex.events if ev[0] == "removed"), default=None)
+    for pos, op, msg in ex.unexpected:
+        if first_removal is not None and pos > first_removal:
+            out.append(("survivor-operations-succeed", f"{op[0]}:{msg}", {"op": op, "error": msg, "results": ex.results}))
+    # (5) refusal when delete permission is off: refused, and nothing changes
+    for ev in ex.events:
+        if ev[0] == "deleted-despite-allow_delete-off":
+            kind = "?"
+            out.append(("refused-when-protected", "deleted-anyway", {"entity": ev[1]}))
+    if ex.before is not None and ex.results and ex.results[-1].startswith("refused:expected:allow_delete-off"):
+        d = rawh5.diff_digests(ex.before["digests"], rawh5.digests(obs["image"]))
+        if d:
+            out.append(("refusal-changes-nothing", "file:" + ",".join(sorted({k[0] + ":" + "+".join(sorted(v)) for k, v in d.items()})[:3]), {"diff": {str(k): sorted(v) for k, v in d.items()}}))
+        dl = observe.diff(ex.before["live"]["tree"], obs["live"]["tree"])
+        if dl:
+            out.append(("refusal-changes-nothing", "live:" + _witness(ex, dl, ex.before["live"]["tree"], obs["live"]["tree"]), {"diff": dl[:10]}))
+    # survivors equal the model (nothing else was deleted)
+    for wsn, rootname in ((1, "root"), (2, "root2")):
+        if live[wsn] is None:
+            continue
+        exp = ex.expected(wsn)
+        got = treeops.project(live[wsn]["tree"], treeops.root_uid_of(live[wsn]), rootname)
+        d = observe.diff(exp, got)
+        if d and removed_sets(ex):
+            out.append(("survivors-intact", _witness(ex, d, exp, got), {"diff": d[:10], "results": ex.results[-5:]}))
+    # de-duplicate identical (clause, witness)
+    seen, res = set(), []
+    for c, w, dt in out:
+        if (c, w) not in seen:
+            seen.add((c, w))
+            res.append((c, w, dt))
+    return res
